@@ -415,3 +415,40 @@ Definition stale_cache_decided (tbl : list jws) (c : pw_case) : bool :=
     | _, _ => false
     end in
   go (pinit2 n extra) ops outs O.
+
+(* conclusion of c07_refresh / c07_refresh_whatever_was_stored, on the observation: after a login
+   that a replica answered (inputs), that the directory accepts (inputs: its content, the account
+   states) and that was ACCEPTED while the primary can be written (input), the user's row in BOTH
+   stores - as observed just after the login - is an unexpired row whose record (in the HARNESS's
+   table) is a genuine current hash of the password just accepted, for this user: whatever was
+   stored before and however recently it was stored.  A row whose record the harness could not
+   number is not judged. *)
+Definition fresh_hash_of (tbl : list jws) (now : Z) (u pw : N) (d : db) : bool :=
+  match row_of d u with
+  | None => false
+  | Some row =>
+      unexpired now row &&
+      match nth_error tbl (N.to_nat (sr_data row)) with
+      | None => true
+      | Some j => jws_valid true now j && N.eqb (j_sub j) u && N.eqb (j_pw j) pw
+      end
+  end.
+
+Definition accepted_login_not_refreshed (tbl : list jws) (c : pw_case) : bool :=
+  let '((n, extra), ops, outs, snaps) := c in
+  let fix go (s : pstate) (ops : list pop) (outs : list (option bool)) (i : nat) : bool :=
+    match ops, outs with
+    | o :: r, v :: outs' =>
+        (match o, v with
+         | Login u pw, Some true =>
+             existsb is_up (servers s) && dir_accepts s u pw && writable (st s) &&
+             match snap_at snaps i with
+             | Some (p1, c1) =>
+                 negb (fresh_hash_of tbl (now (st s)) u pw p1 && fresh_hash_of tbl (now (st s)) u pw c1)
+             | None => false
+             end
+         | _, _ => false
+         end) || go (fst (pstep s o)) r outs' (S i)
+    | _, _ => false
+    end in
+  go (pinit2 n extra) ops outs O.
